@@ -20,7 +20,7 @@ def plan_roundtrip(pid, rng, quick):
     # big but valid batches (tens of thousands of attribute-bearing parents, still <= 65,535), first on the stream
     # (schema updates rebuild the record several times) and after a warm-up
     withs = {"traces": ["spanattr", "event", "link"], "logs": ["logattr"], "metrics": ["dpattr"]}[signal]
-    for i in range(2 if quick else 10):
+    for i in range(4 if quick else 12):
         n_ = rng.choice([33000, 40000, 65535])
         big = {"gen": "parents", "n": n_, "nres": rng.choice([1, 3]), "with": rng.choice(withs), "nodump": True}
         bs = [big] if i % 2 == 0 else [otap.rand_batch(rng, rich=2), big]
@@ -33,7 +33,7 @@ def plan_roundtrip(pid, rng, quick):
         plan.append({"id": "rt-uniform/%s/%d" % (signal, i), "signal": signal, "opts": otap.opts_random(rng) if i % 2 else {},
                      "batches": bs, "props": [pid], "mode": 0})
     # an emitted batch is a value of its own: the consumer is one or more batches behind the producer (queue, retry buffer)
-    for i in range(12 if quick else 900):
+    for i in range(24 if quick else 900):
         st = otap.rand_stream(rng, "rt-lag/%s/%d" % (signal, i), signal, [pid], nb=rng.choice([3, 4, 6]))
         if i % 3 == 0:      # the same input again: messages of equal size on the same sub-streams
             st["batches"] = [st["batches"][0]] + [{"resend": 1} for _ in range(len(st["batches"]) - 1)]
